@@ -103,7 +103,10 @@ CONTRACTS = [
 ]
 TARGETS = [c.target for c in CONTRACTS]
 TRUSTED = ["create_plot_log adds exactly one PlotLog row for the given run id; store_recent_run adds exactly one RecentRun row for engine_data's run "
-           "(it may raise; the handlers in run_stopped catch that)", "database scope / session / publisher calls do not touch aggregator run state"]
+           "(it may raise; the handlers in run_stopped catch that)", "database scope / session / publisher calls do not touch aggregator run state",
+           "in run_started the store of a superseded, still active run is assumed to succeed: a database failure is not among the disturbances the "
+           "property quantifies over (observed by a seed agent, not claimed either way: if that store raises, the new run's plot log is still created "
+           "while the old run stays active, and a resent run_started then creates a second plot log)"]
 CLAUSES = {"exactly one plot log per run": "run_started postconditions by case (unknown engine / new run / duplicate / other run active); run_stopped and engine_disconnected never create one",
            "exactly one recent run per run": "run_stopped stores exactly once iff a run was active and ends it (a second stop finds no run); run_started stores only a DIFFERENT still-active run, once",
            "regardless of duplicated notifications": "the duplicate cases are explicit postconditions; induction over message histories is the per-operation argument (run becomes active only through run_started / restore)"}
